@@ -511,6 +511,18 @@ pub async fn run_client() {
 
 /// Real listener-side `Sender` (obtained through `LinkAcceptor`) against a scripted
 /// client that attaches a receiver link
+thread_local! {
+    static WINDOW_ONLY: std::cell::Cell<bool> = std::cell::Cell::new(false);
+}
+
+/// The same scenario as C07 uses it: what is under test there is the session window that the peer's
+/// begin and its (also pipelined) flows state; drain and echo requests are C08's business
+pub async fn run_listener_window() {
+    WINDOW_ONLY.with(|f| f.set(true));
+    run_listener().await;
+    WINDOW_ONLY.with(|f| f.set(false));
+}
+
 pub async fn run_listener() {
     let n = 2 + choice(pick(&[4u32, 8, 16])) as usize;
     let unsettled = choice(3) == 1;
@@ -520,7 +532,8 @@ pub async fn run_listener() {
     sim::set_sched_yield_den(yield_den);
     // flows the peer pipelines behind its attach, before the application has accepted the link:
     // 0 none; 1 plain grants; 2 the last one asks for a drain; 3 the last one asks for an echo
-    let pipelined = pick(&[0u32, 0, 1, 1, 2, 3]);
+    let window_only = WINDOW_ONLY.with(|f| f.get());
+    let pipelined = if window_only { pick(&[0u32, 1, 1]) } else { pick(&[0u32, 0, 1, 1, 2, 3]) };
     let pipelined_credits: Vec<u32> = (0..1 + choice(3)).map(|_| pick(&[1u32, 3, 2, 5, 0])).collect();
     // the listener's sending links start counting where the application says
     let l_initial_dc: u32 = match choice(6) {
@@ -538,6 +551,8 @@ pub async fn run_listener() {
     let models = Models {
         credit: true,
         delivery: true,
+        window: window_only,
+        sess: window_only,
         ..Models::none()
     };
     let pvl = match peer::peer_vs_listener(&lcfg, peer::open("peer", Some(65536), Some(255), None), nab, nba, models).await {
@@ -545,7 +560,14 @@ pub async fn run_listener() {
         None => return,
     };
     let peer::ListenerVsPeer { mut listener, mut peer, net, mon, .. } = pvl;
-    let mut ps = PeerSession::new(pick(&[0u16, 5]), 100, 5000, 5000);
+    // the session window the peer states in its begin; a flow pipelined behind the attach (before
+    // the link exists on the listener's side) restates it, and the session half of such a flow
+    // counts at once whatever becomes of its link half
+    let w0 = if window_only { pick(&[5000u32, 5000, 1, 2, 3]) } else { pick(&[5000u32, 5000, 1, 2]) };
+    // (C07) the window the pipelined flows state instead
+    let w1 = if window_only { pick(&[1u32, 2, 3, 5000]) } else { 5000 };
+    let mut ps = PeerSession::new(pick(&[0u16, 5]), 100, w0, 5000);
+    sim::append_config(&format!(" peer-session-window-at-begin={}", w0));
     let peer_handle = pick(&[0u32, 3, 777]);
     let acc = SessionAcceptor::new();
     let msgs_v = gen_msgs(n, None);
@@ -609,6 +631,9 @@ pub async fn run_listener() {
         win_mark: 0,
     };
     let mut last_credit = None;
+    if pipelined > 0 && (window_only || choice(2) == 0) {
+        st.ps.incoming_window = w1;
+    }
     if pipelined > 0 {
         // the receiver does not know the sender's delivery-count yet: the field stays unset and the
         // sender has to take its own initial delivery-count for it
@@ -633,6 +658,15 @@ pub async fn run_listener() {
         // the link: only the last one counts from here on
         if !quiesce(&mut peer, &mut st, &net, &mon, 0).await {
             return;
+        }
+        if window_only {
+            // ... and only the window it states: the listener session has read it
+            let mut m = mon.borrow_mut();
+            m.sync();
+            if let Some(last) = m.ends[0].sessions.last().and_then(|s| s.stmts.last()).map(|s| s.seq) {
+                m.window_floor[0] = last + 1;
+            }
+            sim::probe("window-floor-before-accept");
         }
     }
     accept_gate.put(());
